@@ -416,8 +416,35 @@ def seed_tables() -> dict:
     for w in sc.shared_state():
         if w not in writes:
             writes.append(w)
-    return {"temp_seed": temp_seed_shape(tree), "temp_seed_args": _temp_seed_args(tree), "writes": writes,
+    return {"poisson_order": _poisson_order(tree),
+            "temp_seed": temp_seed_shape(tree), "temp_seed_args": _temp_seed_args(tree), "writes": writes,
             "plans": sorted(plans.items()), "rows": rows, "reached": sorted(sc.reached)}
+
+
+def _poisson_order(tree: ast.Module) -> list[str]:
+    """order of the three steps inside the bisection loop of `VariableDensityPoissonMaskFunc.poisson`:
+    `raster` (`_poisson(…)`), `crop` (`if self.crop_corner: mask *= r < 1`), `disc` (`mask = mask | centered_disk_mask(…)`)"""
+    cls = next((c for c in tree.body if isinstance(c, ast.ClassDef) and c.name == "VariableDensityPoissonMaskFunc"), None)
+    fn = next((f for f in (cls.body if cls else []) if isinstance(f, ast.FunctionDef) and f.name == "poisson"), None)
+    if fn is None:
+        return ["?missing"]
+    loops = [n for n in ast.walk(fn) if isinstance(n, ast.While)]
+    if len(loops) != 1:
+        return [f"?{len(loops)} loops"]
+    toks = []
+    for st in loops[0].body:
+        txt = ast.unparse(st).replace(" ", "")
+        if isinstance(st, ast.Expr) and isinstance(st.value, ast.Call) and ast.unparse(st.value.func) == "_poisson":
+            toks.append("raster")
+        elif isinstance(st, ast.If) and ast.unparse(st.test) == "self.crop_corner" and not st.orelse and len(st.body) == 1 \
+                and ast.unparse(st.body[0]).replace(" ", "") in ("mask*=r<1", "mask=mask*(r<1)", "mask=mask&(r<1)", "mask&=r<1"):
+            toks.append("crop")
+        elif "crop_corner" in txt:
+            toks.append("?crop:" + txt[:40])
+        elif "centered_disk_mask" in txt:
+            toks.append("disc" if txt.startswith(("mask=mask|centered_disk_mask(", "mask|=centered_disk_mask(", "mask=centered_disk_mask(")) and
+                        txt.count("mask") <= 4 and "&" not in txt and "*" not in txt else "?disc:" + txt[:40])
+    return toks
 
 
 def _b(x) -> str:
@@ -438,7 +465,8 @@ def _seed_extra():
                 "def stateWrites : List (String × String × String) := []\n"
                 'def callPlans : List (String × List String) := [("BaseMaskFunc", ["guard", "guard", "forward"])]\n'
                 "def seedParams : List (String × Bool × Bool × Bool) :=\n  ["
-                + ", ".join(f'("{g}", true, false, true)' for g in C05_GENERATORS) + "]\n")
+                + ", ".join(f'("{g}", true, false, true)' for g in C05_GENERATORS) + "]\n"
+                'def poissonOrder : List String := ["raster", "crop", "disc"]\n')
         return text, {"seed_pass_through": f"skipped: {e}"}
     L = ["/-- statement skeleton of `temp_seed` (`seed` only when `rng.seed` gets exactly the seed parameter) -/",
          "def tempSeed : List String := [" + ", ".join(_q(x) for x in t["temp_seed"]) + "]\n",
@@ -461,7 +489,9 @@ def _seed_extra():
         sep = "," if i + 1 < len(t["rows"]) else ""
         L.append(f"  ({_q(g)}, {_b(a)}, {_b(b)}, {_b(c)}){sep}")
     L.append("]\n")
-    return "\n".join(L), {"seed_pass_through": "translated", "state_writes(instance/class/module/memo decorators)": "translated",
+    L.append("/-- steps of the bisection loop of `VariableDensityPoissonMaskFunc.poisson`, in source order -/")
+    L.append("def poissonOrder : List String := [" + ", ".join(_q(x) for x in t["poisson_order"]) + "]\n")
+    return "\n".join(L), {"poisson_crop_before_disc": "translated", "seed_pass_through": "translated", "state_writes(instance/class/module/memo decorators)": "translated",
                           "call_plan": "translated", "seed_param_and_choice_order": "translated"}
 
 
